@@ -64,7 +64,7 @@ Definition X (m : Z) := mkdec m 6.
 Definition Y (m : Z) := mkdec m 4.
 Definition G (m : Z) (n : nat) := mkdec m n.
 Definition K (a b c d : Z) := KMod ((a, b), (c, d)).
-Definition S (s : string) := KStr (lb s).
+Definition L (s : string) := KStr (lb s).
 """
 
 # ----------------------------------------------------------------------------------------
@@ -102,7 +102,7 @@ def draw_mant(rng, D, mode):
 
 def fval(md):
     m, n = md
-    return m / 10 ** n if n <= 22 else float(Decimal(m).scaleb(-n))
+    return m / 10 ** n          # int / int true division is correctly rounded
 
 
 def draw_qha(rng, nv, nq, np_, mode):
@@ -373,11 +373,11 @@ def foreign_text(rng, d, style):
     def num(md, w, dec):
         x = Decimal(md[0]).scaleb(-md[1])
         if style == "exp":
-            s = "%.*E" % (dec + 2, x) if rng.random() < 0.5 else "%.*e" % (dec, x)
+            s = format(x, ".12E") if rng.random() < 0.5 else format(x, ".13e")
         elif style == "plus" and md[0] > 0 and rng.random() < 0.3:
-            s = "+%.*f" % (dec, x)
+            s = "+" + format(x, ".%df" % dec)
         else:
-            s = "%.*f" % (dec, x)
+            s = format(x, ".%df" % dec)
         return s.rjust(w)
     ws = lambda: rng.choice([" ", "  ", "   ", "\t", " \t "])
     L = [" some-material_LDA", " The file contains frequencies and weight factors at the end",
@@ -511,14 +511,14 @@ def numtok(rng, md):
     x = Decimal(md[0]).scaleb(-md[1])
     k = rng.random()
     if k < 0.7:
-        return "%.*f" % (md[1], x)
+        return format(x, ".%df" % md[1])
     if k < 0.8:
-        return "%.*f" % (md[1] + rng.randint(1, 3), x)
+        return format(x, ".%df" % (md[1] + rng.randint(1, 3)))
     if k < 0.9:
-        return "%.*e" % (md[1] + 4, x)
+        return format(x, ".%d%s" % (md[1] + 6, rng.choice("eE")))
     if md[0] > 0:
-        return "+%.*f" % (md[1], x)
-    return "%.*f" % (md[1], x)
+        return "+" + format(x, ".%df" % md[1])
+    return format(x, ".%df" % md[1])
 
 
 def draw_table(rng, kind):
@@ -606,7 +606,7 @@ def obs_elast_term(o):
 
     def kterm(k):
         if isinstance(k, str):
-            return "S %s" % coq_string(k)
+            return "L %s" % coq_string(k)
         return "K %d %d %d %d" % (k.i.i, k.i.j, k.j.i, k.j.j)
     try:
         rows = "[" + ";\n  ".join("(%s, [%s])" % (dterm(r(v.volume)), "; ".join(
@@ -700,7 +700,7 @@ def stage_elast(ctx, rd):
     rows = []
     import itertools
     for n_ in (1, 2, 3, 4, 5):
-        rngs = [range(0, 8)] * n_ if n_ <= 2 else [range(0, 5)] * n_
+        rngs = [range(0, 8)] * n_ if n_ <= 2 else [range(0, 5 if n_ < 5 else 4)] * n_
         for ds in itertools.product(*rngs):
             s = "".join(map(str, ds))
             try:
@@ -708,7 +708,7 @@ def stage_elast(ctx, rd):
                 obs = "Some (K %d %d %d %d)" % (k.i.i, k.i.j, k.j.i, k.j.j)
             except BaseException:
                 obs = "None"
-            rows.append("(S %s, %s)" % (coq_string("pre" + s), obs))
+            rows.append("(L %s, %s)" % (coq_string("pre" + s), obs))
             ctx.case(["key", s])
     ctx.count("digit strings for the canonical-key table", len(rows))
     f = rd / "cases_keys.v"
@@ -757,6 +757,11 @@ def expand_system(system, x):
     return c
 
 
+def dtok(x):
+    s = format(x, "f")
+    return s if "." in s else s + ".0"
+
+
 def stage_fill(ctx, rd):
     import cij.io.traditional.elast_dat as E
     import cij.cli.fill as F
@@ -794,8 +799,7 @@ def stage_fill(ctx, rd):
                 L.append("   ".join(["V"] + [pre + k for k in cols]))
                 vols = [Decimal(rng.randint(100000, 30000000)).scaleb(-4) for _ in range(nv)]
                 for v, r in zip(vols, rows):
-                    L.append("  ".join([str(v)] + [format(r.get(k, Decimal("0.0")), "f") if "." in format(r.get(k, Decimal("0.0")), "f")
-                                                   else format(r.get(k, Decimal("0.0")), "f") + ".0" for k in cols]))
+                    L.append("  ".join([dtok(v)] + [dtok(r.get(k, Decimal("0.0"))) for k in cols]))
                 if with_lat:
                     L.append("lattice_a  lattice_b  lattice_c")
                     for _ in range(nv):
